@@ -168,6 +168,20 @@ func runC17(tier string, seed uint64) {
 		for _, s := range special {
 			put(s)
 		}
+		// create-bucket requests carrying the optional headers of the S3 API (object lock, ACL, grants, ownership) and a
+		// location document: the name rule decides, and what is answered agrees with what is listed afterwards
+		for hi, hv := range [][2]string{{"x-amz-bucket-object-lock-enabled", "true"}, {"x-amz-bucket-object-lock-enabled", "false"}, {"x-amz-acl", "public-read"},
+			{"x-amz-grant-full-control", "id=abc"}, {"x-amz-object-ownership", "BucketOwnerEnforced"}, {"x-amz-bucket-object-lock-enabled", "TRUE"}, {"Content-Type", "application/xml"}} {
+			for _, nm := range []string{fmt.Sprintf("hdr-bucket-%d", hi), fmt.Sprintf("Hdr_Bad_%d", hi)} {
+				body := []byte{}
+				if hi%2 == 0 {
+					body = []byte(`<CreateBucketConfiguration xmlns="http://s3.amazonaws.com/doc/2006-03-01/"><LocationConstraint>eu-west-1</LocationConstraint></CreateBucketConfiguration>`)
+				}
+				r := do(h, Req{Method: "PUT", Path: "/" + nm, Body: body, Header: [][2]string{hv}})
+				emit("c17", "put", kind, hs(nm), strconv.Itoa(r.Status), hs(errCode(r.Body)), boolField(r.Panic != ""))
+			}
+		}
+		list()
 		// duplicates
 		for _, s := range []string{"abc", "aaa.bbb", "a-c", "zzz"} {
 			put(s)
